@@ -41,6 +41,9 @@ var divAllow = map[string]string{
 
 func c04() []*Ob {
 	return []*Ob{
+		{Prop: "C04", ID: "C04.12", Engine: "PAIR(two sites)", Floor: 1,
+			Desc:  "an absent id does not take the batch down: sealedIDsIndex.LessOrEqual answers for a position beyond the ID table, or findLIDs never searches beyond Len()-1 (no search takes an earlier result as its upper end). With both relaxed, an absent id below everything stored followed by another id makes the probe index past the table; the recovered panic fails the whole fetch",
+			Check: func(c *Ctx) { lessOrEqualBorder(c) }},
 		{Prop: "C04", ID: "C04.11", Engine: "PAIR(parallel arrays)", Floor: 1,
 			Desc: "the i-th group of ids is fetched from the i-th fraction: groupIDsByFraction extends its two results together — wherever a group is appended to the id groups, the fraction it belongs to is written into the fraction list in the same step (same basic block) — otherwise a candidate fraction that received no ids shifts every later group onto the wrong fraction, and stored documents come back as not found",
 			Check: func(c *Ctx) {
